@@ -237,6 +237,44 @@ func census(repo string, pkgs []*packages.Package) {
 	facts["census_go_stmt"] = goStmt
 	facts["census_rand"] = randUse
 	facts["census_getenv"] = getenv
+
+	// explicit panic sites in the files that run OUTSIDE the per-transaction recovery (begin / end of block) and in
+	// the precompile dispatcher: a new one is a new way to halt the chain and has to be looked at (C20)
+	blockFiles := map[string]bool{"x/evm/keeper/abci.go": true, "x/evm/keeper/keeper.go": true, "x/feemarket/keeper/abci.go": true,
+		"x/feemarket/keeper/eip1559.go": true, "x/feemarket/keeper/keeper.go": true, "x/feemarket/keeper/params.go": true, "x/evm/keeper/params.go": true,
+		"x/cpc/keeper/precompiles.go": true, "x/cpc/keeper/abci.go": true, "x/vauth/keeper/abci.go": true}
+	var panics []Site
+	for _, p := range pkgs {
+		for _, file := range p.Syntax {
+			fname := p.Fset.Position(file.Pos()).Filename
+			r := rel(repo, fname)
+			if isTest(fname) || !blockFiles[r] {
+				continue
+			}
+			count := map[string]int{}
+			var order []string
+			walkWithFunc(file, func(n ast.Node, fun string) {
+				if ce, ok := n.(*ast.CallExpr); ok {
+					if id, ok := ce.Fun.(*ast.Ident); ok && id.Name == "panic" {
+						if count[fun] == 0 {
+							order = append(order, fun)
+						}
+						count[fun]++
+					}
+				}
+			})
+			for _, fun := range order {
+				panics = append(panics, Site{r, 0, fun, fmt.Sprintf("panic x%d", count[fun])})
+			}
+		}
+	}
+	sort.Slice(panics, func(i, j int) bool {
+		if panics[i].File != panics[j].File {
+			return panics[i].File < panics[j].File
+		}
+		return panics[i].Func < panics[j].Func
+	})
+	facts["census_block_panics"] = panics
 }
 
 // bodyHasEffects: does the loop body do anything besides building a local collection?
@@ -702,6 +740,8 @@ func feemarketFacts(p *packages.Package) {
 		return true
 	})
 	facts["calculateBaseFeeMaxGasConds"] = conds
+	// every guard of CalculateBaseFee, in source order, rendered completely
+	facts["calculateBaseFeeGuards"] = ifConds(findMethod(p, "Keeper", "CalculateBaseFee"))
 }
 
 func chainConfigFacts(p *packages.Package) {
